@@ -33,8 +33,15 @@ pub fn explore_pairs(w: &World, member: &str, regime: Regime, max_pairs: usize, 
     let mut recs: Vec<PairRec> = vec![PairRec { parent: None, restarts_since_sync: false, rand_diverged: false }];
     let mut live: HashMap<usize, (Client, Client, StateRec)> = HashMap::new();
     let mut index: HashMap<(u64, u64), usize> = HashMap::new();
-    let a0 = w.initial[member].fork();
-    let b0 = w.initial[member].fork();
+    // the member also holds a second group of its own with rollback snapshots at epochs 0..2 (own self-updates applied
+    // from their echo): what a rollback or a restart does to the first group must not depend on it
+    // (only in the histories with a rollback followed by another race: every fork and dump pays for the extra rows)
+    let base = w.initial[member].fork();
+    if w.sc.name.starts_with("deep-rollback") || w.sc.name.starts_with("commit-then-race") {
+        second_group_with_snapshots(&base);
+    }
+    let a0 = base.fork();
+    let b0 = base.fork();
     let root_epoch = w.nodes[&vec![]].core.epoch;
     let start_epoch = a0.group_obs(&w.gid).and_then(|g| g.mls.map(|m| m.epoch)).unwrap_or(root_epoch);
     let sa = snap(&a0, w, &pool_ids, &wids);
@@ -57,24 +64,53 @@ pub fn explore_pairs(w: &World, member: &str, regime: Regime, max_pairs: usize, 
     while let Some(si) = q.pop_front() {
         let (ca, cb, st) = live.remove(&si).unwrap();
         let acts = enabled(w, &st, &opts, member);
-        for a in acts {
-            transitions += 1;
-            let (na, ra, nb, rb);
-            if a == Action::Restart {
-                // the never-restarted replica stays as it is
-                na = ca.fork();
-                ra = "Ok".to_string();
-                let o = step(w, &cb, Action::Restart);
-                nb = o.client;
-                rb = o.result;
-            } else {
-                let oa = step(w, &ca, a);
-                let ob = step(w, &cb, a);
-                na = oa.client;
-                ra = oa.result;
-                nb = ob.client;
-                rb = ob.result;
+        // the actions enabled in one pair state are independent of each other: the real executions (two forks, two calls)
+        // run side by side, their results are judged in the order of the action list
+        let parent_rand = recs[si].rand_diverged;
+        let mut stepped: Vec<Option<(Client, String, Client, String, String, String, Vec<String>, Vec<String>)>> = acts.iter().map(|_| None).collect();
+        std::thread::scope(|sc| {
+            for (slot, a) in stepped.iter_mut().zip(acts.iter().copied()) {
+                let (ca, cb, wids) = (&ca, &cb, &wids);
+                sc.spawn(move || {
+                    let (na, ra, nb, rb);
+                    if a == Action::Restart {
+                        // the never-restarted replica stays as it is
+                        na = ca.fork();
+                        ra = "Ok".to_string();
+                        let o = step(w, cb, Action::Restart);
+                        nb = o.client;
+                        rb = o.result;
+                    } else {
+                        let oa = step(w, ca, a);
+                        let ob = step(w, cb, a);
+                        na = oa.client;
+                        ra = oa.result;
+                        nb = ob.client;
+                        rb = ob.result;
+                    }
+                    let strip = parent_rand && a == Action::MergeOwn;
+                    let obs_of = |c: &Client| -> String {
+                        let mut v = c.obs(wids);
+                        if strip {
+                            if let Some(gs) = v.get_mut("groups").and_then(|g| g.as_array_mut()) {
+                                for g in gs {
+                                    if let Some(m) = g.get_mut("mls").and_then(|m| m.as_object_mut()) {
+                                        m.remove("authenticator");
+                                    }
+                                }
+                            }
+                        }
+                        v.to_string()
+                    };
+                    let (oa, ob) = if ra == rb { (obs_of(&na), obs_of(&nb)) } else { (String::new(), String::new()) };
+                    let (da, db) = if ra == rb && oa == ob { (stable_dump(&na), stable_dump(&nb)) } else { (vec![], vec![]) };
+                    *slot = Some((na, ra, nb, rb, oa, ob, da, db));
+                });
             }
+        });
+        for (a, slot) in acts.into_iter().zip(stepped.into_iter()) {
+            transitions += 1;
+            let (na, ra, nb, rb, oa, ob, da, db) = slot.expect("stepped");
             let mut trace = path_to(&recs, si);
             trace.push(a);
             let labels: Vec<String> = trace.iter().map(|x| x.label(w)).collect();
@@ -118,21 +154,6 @@ pub fn explore_pairs(w: &World, member: &str, regime: Regime, max_pairs: usize, 
             // merging an auto-commit that each replica built with its own randomness gives each its own epoch
             // secrets: compare everything but the value derived from them, and do not search beyond it
             let own_random_merged = recs[si].rand_diverged && a == Action::MergeOwn;
-            let obs_of = |c: &Client| -> String {
-                let mut v = c.obs(&wids);
-                if own_random_merged {
-                    if let Some(gs) = v.get_mut("groups").and_then(|g| g.as_array_mut()) {
-                        for g in gs {
-                            if let Some(m) = g.get_mut("mls").and_then(|m| m.as_object_mut()) {
-                                m.remove("authenticator");
-                            }
-                        }
-                    }
-                }
-                v.to_string()
-            };
-            let oa = obs_of(&na);
-            let ob = obs_of(&nb);
             if oa != ob {
                 rep.finding(
                     format!("C11|obs-differs|{}|{restart_pos}", abs(&a)),
@@ -144,8 +165,6 @@ pub fn explore_pairs(w: &World, member: &str, regime: Regime, max_pairs: usize, 
             let pend = na.group_obs(&w.gid).map(|g| g.pending_commit).unwrap_or(false) || nb.group_obs(&w.gid).map(|g| g.pending_commit).unwrap_or(false);
             // sticky: the snapshot taken when another commit replaces the auto-commit still holds its blob
             let rand_diverged = recs[si].rand_diverged || (pend && ra == "Proposal");
-            let da = stable_dump(&na);
-            let db = stable_dump(&nb);
             if da != db && !rand_diverged {
                 let only_a: Vec<&String> = da.iter().filter(|l| !db.contains(l)).take(3).collect();
                 let only_b: Vec<&String> = db.iter().filter(|l| !da.contains(l)).take(3).collect();
@@ -188,8 +207,8 @@ pub fn explore_pairs(w: &World, member: &str, regime: Regime, max_pairs: usize, 
     // conformance: re-execute the path to the last pair state and require the same keys
     if recs.len() > 1 {
         let t = path_to(&recs, recs.len() - 1);
-        let mut a = w.initial[member].fork();
-        let mut b = w.initial[member].fork();
+        let mut a = base.fork();
+        let mut b = base.fork();
         for x in &t {
             if *x == Action::Restart {
                 b = b.restart();
@@ -205,6 +224,20 @@ pub fn explore_pairs(w: &World, member: &str, regime: Regime, max_pairs: usize, 
             rep.machinery_errors.push(format!("C11 determinism gate: scenario {} member {member}", w.sc.name));
         }
         rep.sample(json!({"scenario": w.sc.name, "member": member, "pairs": recs.len(), "trace_to_last_pair": t.iter().map(|x| x.label(w)).collect::<Vec<_>>()}));
+    }
+}
+
+fn second_group_with_snapshots(c: &Client) {
+    use mdk_core::prelude::*;
+    let cfgd = NostrGroupConfigData::new("own".into(), "second group".into(), None, None, None, vec![relay("wss://own.example")], vec![c.pk()]);
+    if let Ok(r) = crate::with_mdk!(c, m => m.create_group(&c.pk(), vec![], cfgd)) {
+        let g2 = r.group.mls_group_id.clone();
+        let _ = crate::with_mdk!(c, m => m.merge_pending_commit(&g2));
+        for _ in 0..3 {
+            if let Ok(u) = crate::with_mdk!(c, m => m.self_update(&g2)) {
+                let _ = c.process(&u.evolution_event);
+            }
+        }
     }
 }
 
